@@ -1141,7 +1141,7 @@ func main() {
 		shard = 250 // keeps one coqc process below ~1 GB
 	}
 	w := emit.NewWriter(cfg.Out, "C11_spec", shard, cfg.Only)
-	n := cfg.Count(960, 12000)
+	n := cfg.Count(1200, 14000)
 	g := &gen{r: r, long: 150}
 	if !cfg.Quick {
 		g.long = 600
@@ -1259,6 +1259,46 @@ func main() {
 			x.overlapPair(a2, b2, newGate(gp.point, gp.nth), newGate(gp.point, gp.nth), crossed)
 		}
 	}
+	// the inbound side: every encoding of the state x GET / POST x both routers, followed to
+	// the success response, the not-logged-in error and a refusal
+	for ei, enc := range rawEncodings {
+		for pi, post := range []bool{false, true} {
+			for _, rt := range []opfix.Router{opfix.Provider, opfix.Legacy} {
+				st := []string{"a;b", "a+b/= c", "x=y&z;w#h", "é✓;"}[(ei+pi)%4]
+				k := (ei + pi + int(rt)) % 3
+				base := cbJob{router: rt, redirect: plainURI, shapeName: "plain", rtype: []string{"code", "id_token", "id_token token"}[(ei+int(rt))%3],
+					rmode: []string{"", "form_post", "query", "fragment"}[(ei+pi)%4], state: st, class: "classic", extra: []string{"fixed=inbound"}}
+				switch k {
+				case 0:
+					j := base
+					j.done, j.raw = true, g.rawState(st, enc, post)
+					x.runJob(&j)
+				case 1:
+					j := base
+					j.raw = g.rawState(st, enc, post)
+					x.runJob(&j)
+				default:
+					j := x.refusal(rt, "prompt_none", plainURI, "plain", base.rtype, base.rmode, st, "classic", "fixed=inbound")
+					j.raw = g.rawState(st, enc, post)
+					x.runJob(j)
+				}
+			}
+		}
+	}
+	// a raw ';' inside the state, all stages, both routers
+	for _, rt := range []opfix.Router{opfix.Provider, opfix.Legacy} {
+		for _, enc := range []string{"rfc3986", "semicolon", "verbatim"} {
+			for k := 0; k < 3; k++ {
+				j := &cbJob{router: rt, redirect: plainURI, shapeName: "plain", rtype: "code", state: "xyz;123", class: "classic", done: k == 0, extra: []string{"fixed=inbound_semicolon"}}
+				if k == 2 {
+					j = x.refusal(rt, "storage_error", plainURI, "plain", "code", "", "xyz;123", "classic", "fixed=inbound_semicolon")
+				}
+				j.raw = g.rawState("xyz;123", enc, false)
+				j.raw.garbage = nil
+				x.runJob(j)
+			}
+		}
+	}
 	// GET /authorize refused after the redirect URI was accepted: each reason on its own
 	// (state sent / not sent), then two such requests overlapping at the encoder
 	for ri, reason := range refusalReasons {
@@ -1348,6 +1388,17 @@ func main() {
 			vs, class := g.pickVals(2)
 			sh := g.uriShape(true)
 			x.caseNotDone(opfix.Router(kind-12), sh.uri, sh.name, drv.Pick(r, []string{"code", "id_token token", "id_token"}), rmode, vs[0], vs[1], class)
+		case 16, 17: // the authorization request as raw bytes (GET / POST), followed to the callback of a user who logged in / did not
+			vs, class := g.pickVals(2)
+			sh := g.uriShape(true)
+			x.runJob(&cbJob{router: opfix.Router(r.IntN(2)), redirect: sh.uri, shapeName: sh.name, rtype: drv.Pick(r, []string{"code", "id_token token", "id_token"}), rmode: rmode,
+				state: vs[0], session: vs[1], class: class, done: kind == 16 || r.Chance(1, 3), raw: g.rawState(vs[0], "", r.Chance(2, 5))})
+		case 18: // ... or refused after the redirect URI was accepted
+			vs, class := g.pickVals(1)
+			sh := g.uriShape(true)
+			j := x.refusal(opfix.Router(r.IntN(2)), drv.Pick(r, refusalReasons), sh.uri, sh.name, drv.Pick(r, []string{"code", "id_token token", "id_token"}), rmode, vs[0], class)
+			j.raw = g.rawState(vs[0], "", r.Chance(2, 5))
+			x.runJob(j)
 		case 15: // GET /authorize refused by the library's own validation (or the storage), after the redirect URI was accepted
 			vs, class := g.pickVals(1)
 			sh := g.uriShape(true)
@@ -1377,15 +1428,19 @@ func main() {
 			rmode = drv.Pick(r, rmodeNearMiss)
 		}
 		rtype := drv.Pick(r, []string{"code", "code", "id_token token", "id_token"})
+		var raw *rawReq
+		if r.Chance(1, 3) {
+			raw = g.rawState(vs[0], "", r.Chance(1, 3))
+		}
 		if r.Chance(1, 4) {
 			j := x.refusal(opfix.Router(r.IntN(2)), drv.Pick(r, refusalReasons), sh.uri, sh.name, rtype, rmode, vs[0], class)
-			j.statePresentEmpty = r.Bool()
+			j.statePresentEmpty, j.raw = r.Bool(), raw
 			return j
 		}
 		return &cbJob{router: opfix.Router(r.IntN(2)), redirect: sh.uri, shapeName: sh.name, rtype: rtype,
-			rmode: rmode, state: vs[0], session: vs[1], class: class, subject: subject, done: r.Chance(2, 5), statePresentEmpty: r.Bool()}
+			rmode: rmode, state: vs[0], session: vs[1], class: class, subject: subject, done: r.Chance(2, 5), statePresentEmpty: r.Bool(), raw: raw}
 	}
-	kinds := []int{0, 1, 2, 3, 4, 5, 6, 7, 8, 9, 10, 11, 12, 13, 14, 15, 3, 5, 8, 9, 10, 11, 12, 15}
+	kinds := []int{0, 1, 2, 3, 4, 5, 6, 7, 8, 9, 10, 11, 12, 13, 14, 15, 16, 17, 18, 3, 5, 8, 9, 10, 11, 12, 15, 16, 17}
 	for it := 0; w.Len() < n; it++ {
 		kind := kinds[it%len(kinds)]
 		// overlaps: every fifth step two callbacks overlap (nested / crossed), or a
@@ -1397,14 +1452,19 @@ func main() {
 			}
 			switch r.IntN(3) {
 			case 0:
-				x.overlapAny(a, x.pickGate(a), func() { call(drv.Pick(r, []int{0, 2, 3, 5, 6, 7, 8, 9, 10, 11, 12, 13, 14, 15})) })
+				x.overlapAny(a, x.pickGate(a), func() { call(drv.Pick(r, []int{0, 2, 3, 5, 6, 7, 8, 9, 10, 11, 12, 13, 14, 15, 16, 17, 18})) })
 			default:
 				b := job("bob")
 				if r.Chance(1, 3) && a.reason == "" && b.reason == "" {
 					b.router, b.done = a.router, a.done
 				}
 				if a.reason != "" && b.reason != "" && r.Bool() { // refused for the same reason
-					b = x.refusal(a.router, a.reason, b.redirect, b.shapeName, b.rtype, b.rmode, b.state, b.class)
+					rt, raw := b.rtype, b.raw
+					if rt == "" {
+						rt = "code"
+					}
+					b = x.refusal(a.router, a.reason, b.redirect, b.shapeName, rt, b.rmode, b.state, b.class)
+					b.raw = raw
 				}
 				if r.Chance(1, 4) {
 					b.state, b.session = "", ""
@@ -1418,14 +1478,14 @@ func main() {
 		if it%3 == 1 {
 			for k, m := 0, 1+r.IntN(2); k < m; k++ {
 				x.fault = &faultSpec{accept: drv.Pick(r, []int{0, 1, 17, 100, 200, 260, 400}), short: r.Chance(1, 3)}
-				call(drv.Pick(r, []int{3, 4, 5, 5, 3, 6, 7, 8, 9, 10, 11, 12, 13, 15}))
+				call(drv.Pick(r, []int{3, 4, 5, 5, 3, 6, 7, 8, 9, 10, 11, 12, 13, 15, 16, 18}))
 				x.fault = nil
 			}
 		}
 		call(kind)
 	}
 	err := w.Close(emit.Meta{Property: "C11", Tier: cfg.Tier, Seed: cfg.Seed,
-		Rule:  "calls of AuthResponseURL / AuthResponseFormPost / AuthResponseCode / AuthRequestError / TryErrorRedirect (with the parsed *oidc.AuthRequest; errors hand-made or built by the library's constructors), GET /authorize on BOTH routers refused after the redirect URI was accepted (storage fails CreateAuthRequest, prompt=none, and - handler functions of the Provider router - the library's own validation: prompt, scope, response type, id_token_hint; error type/text read once from a call on its own), the success path end to end (authorize -> login -> callback) and the callback of a user who did NOT log in on BOTH routers for the registered response types x all response_mode strings, minted credentials checked against the provider and canonicalised; what each oidc.Err* constructor yields is compared with its value at the start of the run (no state / session_state may appear); every third call is preceded by 1-2 calls answered into an http.ResponseWriter that breaks after 0..400 body bytes (error or short write), emitted as IAfter; every fifth step two HTTP calls OVERLAP on one provider (IOverlap): the first is held inside the library at a getter of its stored auth request (nth call), at the encoder, at a storage method or at a method of its ResponseWriter while the second runs to completion (nested) or up to its own holding point (crossed), or while one arbitrary other call of the run is made (nested-any); parameter values from 16 classes (alnum, std-base64, ASCII punctuation, a 0..255 byte sweep, multi-byte runes, ill-formed UTF-8, control bytes, percent sequences, markup, random bytes, long, empty / present-but-empty, classic, url-safe, keyword-like literals such as null/nil/undefined/true/0/[]/{}, values just past 1/2/4 KiB) x ~50 redirect URI shapes (plain, with query incl. malformed/colliding/case-variant/raw, with fragment, custom scheme, opaque, relative, unparseable, hostile strings for the form) x response_mode strings incl. case / white-space near misses x response_type strings incl. near misses; blocks of fixed cases first: the known defects, every keyword literal as the value of every parameter on every path and mode, request without state after a request with state, overlaps at each holding point between 'state read' and 'response encoded'. Non-trivial = something was delivered (path class != 0); distinct = distinct input term.",
+		Rule:  "calls of AuthResponseURL / AuthResponseFormPost / AuthResponseCode / AuthRequestError / TryErrorRedirect (with the parsed *oidc.AuthRequest; errors hand-made or built by the library's constructors), GET /authorize on BOTH routers refused after the redirect URI was accepted (storage fails CreateAuthRequest, prompt=none, and - handler functions of the Provider router - the library's own validation: prompt, scope, response type, id_token_hint; error type/text read once from a call on its own), the success path end to end (authorize -> login -> callback) and the callback of a user who did NOT log in on BOTH routers for the registered response types x all response_mode strings, minted credentials checked against the provider and canonicalised; what each oidc.Err* constructor yields is compared with its value at the start of the run (no state / session_state may appear); every third call is preceded by 1-2 calls answered into an http.ResponseWriter that breaks after 0..400 body bytes (error or short write), emitted as IAfter; every fifth step two HTTP calls OVERLAP on one provider (IOverlap): the first is held inside the library at a getter of its stored auth request (nth call), at the encoder, at a storage method or at a method of its ResponseWriter while the second runs to completion (nested) or up to its own holding point (crossed), or while one arbitrary other call of the run is made (nested-any); parameter values from 16 classes (alnum, std-base64, ASCII punctuation, a 0..255 byte sweep, multi-byte runes, ill-formed UTF-8, control bytes, percent sequences, markup, random bytes, long, empty / present-but-empty, classic, url-safe, keyword-like literals such as null/nil/undefined/true/0/[]/{}, values just past 1/2/4 KiB) x ~50 redirect URI shapes (plain, with query incl. malformed/colliding/case-variant/raw, with fragment, custom scheme, opaque, relative, unparseable, hostile strings for the form) x response_mode strings incl. case / white-space near misses x response_type strings incl. near misses; blocks of fixed cases first: the known defects, every keyword literal as the value of every parameter on every path and mode, request without state after a request with state, overlaps at each holding point between 'state read' and 'response encoded', every inbound encoding of the state x GET/POST x both routers; a third of the HTTP jobs send the authorization request as RAW bytes (IInbound): the state in the standard encoding, RFC 3986 minimal encoding with raw sub-delims such as ';' (upper / lower hex), every byte as %xx, verbatim, with a broken escape, repeated, with ';' inside, with an escaped key, or absent, before or after the other parameters, next to garbage segments (empty, '=v', ';', bad escapes, near-miss keys), by GET or by POST with the state in the body, in the query or in both; the client's admissible readings of what it sent are the ground truth. Non-trivial = something was delivered (path class != 0); distinct = distinct input term.",
 		Notes: []string{"user agent for URLs: strings.Cut at '#' and '?', url.ParseQuery on the raw query and raw fragment", "user agent for forms: UTF-8 decode (ill-formed byte -> U+FFFD) then golang.org/x/net/html tokenizer; clean = token stream equals the template skeleton"},
 	})
 	if err != nil {
